@@ -5,5 +5,6 @@ CONSTANTS
   Prog <- P2
   LockWrites = TRUE
   LockDeletes = TRUE
-INVARIANTS Linearizable MirrorAtQuiescence
+  ReadRepair = FALSE
+INVARIANTS Linearizable MirrorAtQuiescence LockDiscipline
 CHECK_DEADLOCK FALSE
